@@ -340,7 +340,7 @@ def units(tier, seed):
     chunk = 400 if tier == "quick" else 1500
     for i in range(0, len(os_), chunk):
         us.append({"kind": "table-ep", "lo": i, "hi": min(len(os_), i + chunk)})
-    regn = 60 if tier == "quick" else 600
+    regn = 60 if tier == "quick" else 3000
     for i in range(0, regn, 20):
         us.append({"kind": "table-reg", "seed": seed * 29 + i, "n": 20})
     us.append({"kind": "codec", "seed": seed, "n": 2000 if tier == "quick" else 40000})
